@@ -215,4 +215,49 @@ theorem covered_blank_skip (cc : Nat) : ∀ (fuel colIdx : Nat) (rem : List Nat)
       | inr he => exact he
     · exact h
 
+theorem covered_blank_spanRow (cc : Nat) : ∀ (cells : List Cell) (colIdx : Nat) (rem : List Nat) (out : List Cell),
+    (∀ c ∈ cells, c.covered = false) → (∀ c ∈ out, c.covered = true → c = coveredCell) →
+    ∀ c ∈ (spanRow cc cells colIdx rem out).2.2, c.covered = true → c = coveredCell := by
+  intro cells
+  induction cells with
+  | nil => intro colIdx rem out _ h; simpa [spanRow] using h
+  | cons c0 rest ih =>
+    intro colIdx rem out hc h
+    simp only [spanRow]
+    have hs := covered_blank_skip cc cc colIdx rem out h
+    generalize skipCovered cc cc colIdx rem out = r at hs
+    obtain ⟨col', rem', out'⟩ := r
+    simp only at hs ⊢
+    split
+    · exact hs
+    · apply ih _ _ _ (fun x hx => hc x (List.mem_cons_of_mem _ hx))
+      intro c hmem hcov
+      simp only [List.mem_append, List.mem_singleton] at hmem
+      cases hmem with
+      | inl hm => exact hs c hm hcov
+      | inr he =>
+        have := hc c0 (List.mem_cons_self)
+        rw [he, this] at hcov
+        cases hcov
+
+theorem covered_blank_spanRows (cc : Nat) : ∀ (rows : List (List Cell)) (rem : List Nat),
+    (∀ row ∈ rows, ∀ c ∈ row, c.covered = false) →
+    ∀ out ∈ spanRows cc rows rem, ∀ c ∈ out, c.covered = true → c = coveredCell := by
+  intro rows
+  induction rows with
+  | nil => intro rem _ out ho; simp [spanRows] at ho
+  | cons row rest ih =>
+    intro rem h out ho
+    simp only [spanRows] at ho
+    have h1 := covered_blank_spanRow cc row 0 rem [] (h row (List.mem_cons_self)) (by simp)
+    generalize spanRow cc row 0 rem [] = r at h1 ho
+    obtain ⟨col', rem', out'⟩ := r
+    have h2 := covered_blank_skip cc cc col' rem' out' h1
+    generalize skipCovered cc cc col' rem' out' = r2 at h2 ho
+    obtain ⟨col2, rem2, out2⟩ := r2
+    simp only [List.mem_cons] at ho
+    cases ho with
+    | inl he => rw [he]; exact h2
+    | inr hm => exact ih rem2 (fun r hr => h r (List.mem_cons_of_mem _ hr)) out hm
+
 end Tabula.Odt
